@@ -57,9 +57,14 @@ def run(repo: Repo, chk: Check):
     from .c06 import r06m
     chk.guarded(r06m, repo, chk, "R02.i")
     chk.rule("R02.k", "the option 'remove_labels' rewrites label operands and nothing else: the substitution pattern delimits whole labels and leaves text in "
-                      "quotes alone (shared with R05.a / R05.i)", floor=2)
-    from .c05 import r05a
+                      "quotes alone, and every label is rewritten in every line that mentions it (shared with R05.a / R05.i / R05.f)", floor=2)
+    from .c05 import r05a, r05f
     chk.shared({"R05.a": "R02.k", "R05.i": "R02.k"}, r05a, repo, chk)
+    chk.shared({"R05.f": "R02.k"}, r05f, repo, chk)
+    chk.rule("R02.l", "inlining binds a parameter to the caller's value without a copy only when neither of the two is assigned again: otherwise the "
+                      "inlined and the called version of the same function see different values (shared with R01.c, the site in compile_function)", floor=1)
+    from .shared import rule_alias_single_assignment
+    chk.guarded(rule_alias_single_assignment, repo, chk, "R02.l", 1, False, f"{GEN_CLASS}.compile_function")
     chk.rule("R02.j", "the option 'compact' changes how a constant is spelled, not whether an expression over it can be folded: the folding coercions "
                       "understand every symbolic spelling (shared with R03.m)", floor=2)
     from .c03 import r03m
